@@ -3,5 +3,5 @@
 mod prop;
 
 fn main() {
-    cgv_core::main_for(cgv_core::Prop { id: "C14", clauses: prop::clauses, extra: prop::native, rule: prop::RULE, assume: prop::ASSUME })
+    cgv_core::main_for(cgv_core::Prop { id: "C14", clauses: prop::clauses, extra: prop::native_all, rule: prop::RULE, assume: prop::ASSUME })
 }
